@@ -72,6 +72,7 @@ DEFAULT_CFG = dict(
     posix=False,       # posix-compat repeat precedence
     scopes=False,      # render start conditions as scopes
     userread=True,     # harness owns reads through YY_INPUT
+    userwrap=False,    # %option yywrap with the harness's scripted yywrap()
     extra_opts="",     # further %option text
 )
 
@@ -108,7 +109,7 @@ def emit_l(src, cfg):
     out.append("%{")
     out.append("#define VF_NRULES %d" % len(src["rules"]))
     out.append("#define VF_NSC %d" % len(src["scs"]))
-    for f in ("reject", "yymore", "stack", "yylineno", "array", "userread"):
+    for f in ("reject", "yymore", "stack", "yylineno", "array", "userread", "userwrap"):
         if c[f] and c[f] != "no": out.append("#define VF_%s 1" % f.upper())
     out.append("#define VF_FLAVOUR_%s 1" % c["flavour"].upper())
     out.append(top)
